@@ -22,6 +22,7 @@ for p in "$@"; do
 	extra=""
 	case "$p" in
 	C04y)
+		# (kept: explicit yield-mode run against the patched tree)
 		# loop-level interleaving on a yield-instrumented copy of the patched tree
 		go build -o .bin/yieldgen ./cmd/yieldgen && ./.bin/yieldgen "$scratch/wt" "$scratch/y" >/dev/null
 		sed "s#=> /repo#=> $scratch/y#" go.mod > "$scratch/gy.mod"; cp go.sum "$scratch/gy.sum"
